@@ -67,6 +67,80 @@ class _StripTypeChecking(ast.NodeTransformer):
         return node
 
 
+class _Canonical(ast.NodeTransformer):
+    """Spelling-only normal forms, so that rules see one shape for equivalent code:
+    (a) `t = t op e` -> `t op= e`  (name / attribute-of-a-name targets, arithmetic and bit operators);
+    (b) `t = e; return t` (adjacent statements; `t` is dead after the return) -> `return e`;
+    (c) `if c: x = a  else: x = b` (single plain assignments to one name) -> `x = a if c else b`."""
+
+    _OPS = (ast.Add, ast.Sub, ast.Mult, ast.BitOr, ast.BitAnd, ast.FloorDiv)
+
+    def __init__(self) -> None:
+        self.rewrites = 0
+        self._uses: List[Dict[str, int]] = []
+
+    def _fn(self, n: Any) -> Any:
+        cnt: Dict[str, int] = {}
+        for x in ast.walk(n):
+            if isinstance(x, ast.Name):
+                cnt[x.id] = cnt.get(x.id, 0) + 1
+        self._uses.append(cnt)
+        self.generic_visit(n)
+        self._uses.pop()
+        return n
+
+    visit_FunctionDef = _fn
+    visit_AsyncFunctionDef = _fn
+
+    def visit_Assign(self, n: ast.Assign) -> Any:
+        self.generic_visit(n)
+        if len(n.targets) == 1 and isinstance(n.value, ast.BinOp) and isinstance(n.value.op, self._OPS):
+            t = n.targets[0]
+            simple = isinstance(t, ast.Name) or (isinstance(t, ast.Attribute) and isinstance(t.value, ast.Name))
+            if simple and ast.dump(_as_load(t)) == ast.dump(n.value.left):
+                self.rewrites += 1
+                return ast.copy_location(ast.AugAssign(target=t, op=n.value.op, value=n.value.right), n)
+        return n
+
+    def visit_If(self, n: ast.If) -> Any:
+        self.generic_visit(n)
+        if len(n.body) == 1 and len(n.orelse) == 1 and all(isinstance(b, ast.Assign) and len(b.targets) == 1 and isinstance(b.targets[0], ast.Name) for b in (n.body[0], n.orelse[0])):
+            a, b = n.body[0], n.orelse[0]
+            if a.targets[0].id == b.targets[0].id:  # type: ignore[attr-defined]
+                self.rewrites += 1
+                return ast.copy_location(ast.Assign(targets=[a.targets[0]], value=ast.copy_location(ast.IfExp(test=n.test, body=a.value, orelse=b.value), n)), n)  # type: ignore[attr-defined]
+        return n
+
+    def generic_visit(self, node: ast.AST) -> ast.AST:
+        super().generic_visit(node)
+        for fld in ('body', 'orelse', 'finalbody'):
+            v = getattr(node, fld, None)
+            if isinstance(v, list) and len(v) >= 2 and isinstance(v[0], ast.stmt):
+                out: List[ast.stmt] = []
+                i = 0
+                while i < len(v):
+                    st = v[i]
+                    nx = v[i + 1] if i + 1 < len(v) else None
+                    if (isinstance(st, ast.Assign) and len(st.targets) == 1 and isinstance(st.targets[0], ast.Name) and isinstance(nx, ast.Return)
+                            and isinstance(nx.value, ast.Name) and nx.value.id == st.targets[0].id and self._uses):
+                        self.rewrites += 1
+                        out.append(ast.copy_location(ast.Return(value=st.value), st))
+                        i += 2
+                        continue
+                    out.append(st)
+                    i += 1
+                setattr(node, fld, out)
+        return node
+
+
+def _as_load(t: ast.AST) -> ast.AST:
+    if isinstance(t, ast.Name):
+        return ast.Name(id=t.id, ctx=ast.Load())
+    if isinstance(t, ast.Attribute):
+        return ast.Attribute(value=t.value, attr=t.attr, ctx=ast.Load())
+    return t
+
+
 class FuncInfo:
     def __init__(self, module: 'Module', cls: Optional['ClassInfo'], node: ast.AST, qual: str) -> None:
         self.module = module
@@ -170,8 +244,10 @@ class Module:
         self.digest = hashlib.sha256(source.encode()).hexdigest()[:16]
         tree = ast.parse(source, filename=path)
         st = _StripTypeChecking()
-        self.tree = ast.fix_missing_locations(st.visit(tree))
+        cn = _Canonical()
+        self.tree = ast.fix_missing_locations(cn.visit(st.visit(tree)))
         self.type_checking_blocks = st.stripped
+        self.canonical_rewrites = cn.rewrites
         self.is_package = os.path.basename(path) == '__init__.py'
         self.imports: Dict[str, Tuple[str, ...]] = {}
         self.assigns: Dict[str, ast.AST] = {}
